@@ -566,6 +566,8 @@ func (state *RuntimeState) writeHTML2FAAuthPage(w http.ResponseWriter,
 		JSSources = append(JSSources, "/static/webui-2fa-okta-push.js")
 	}
 	safeLoginDestination := ensureHTMLSafeLoginDestination(loginDestination)
+	// The value is concatenated into raw HTML below: escape it.
+	safeLoginDestination = htmltemplate.HTMLEscapeString(safeLoginDestination)
 	displayData := secondFactorAuthTemplateData{
 		Title:                 "Keymaster 2FA Auth",
 		JSSources:             JSSources,
@@ -597,6 +599,8 @@ func (state *RuntimeState) writeHTMLLoginPage(w http.ResponseWriter,
 	w.WriteHeader(statusCode)
 
 	safeLoginDestination := ensureHTMLSafeLoginDestination(loginDestination)
+	// The value is concatenated into raw HTML below: escape it.
+	safeLoginDestination = htmltemplate.HTMLEscapeString(safeLoginDestination)
 	displayData := loginPageTemplateData{
 		Title:                 "Keymaster Login",
 		DefaultUsername:       defaultUsername,
